@@ -699,7 +699,9 @@ func (e *Engine) findIndicesBidirectionalDFACore(haystack []byte, at int, state 
 	// Reverse DFA → match start
 	start := e.reverseDFA.SearchReverse(state.revDFACache, haystack, at, end)
 	if start < 0 {
-		return -1, -1, false
+		// The forward DFA found a match, so a negative start means the reverse DFA
+		// gave up (cache full or cleared mid-scan), not "no match".
+		return state.pikevm.SearchAt(haystack, at)
 	}
 	return start, end, true
 }
@@ -726,7 +728,9 @@ func (e *Engine) findIndicesBidirectionalDFALongest(haystack []byte, at int, exi
 	}
 	start := e.reverseDFA.SearchReverse(state.revDFACache, haystack, at, end)
 	if start < 0 {
-		return -1, -1, false // Reverse DFA failed (cache full)
+		// Reverse DFA gave up (cache full or cleared mid-scan): the match exists, let
+		// the per-search PikeVM (already in this engine's match mode) find its bounds.
+		return state.pikevm.SearchAt(haystack, at)
 	}
 	return start, end, true
 }
